@@ -156,6 +156,19 @@ def check_state(kind, args, evs, cap, X, d, sub, stats):
                 fail(f"{lname} load(shared_memory={shared}) differs from the saved sketch in "
                      f"{diff or 'query answers'}",
                      {"loader": lname, "shared": shared, "what": "equal"})
+            if shared:
+                # "loaded with shared_memory" means the whole state lives in the block: a
+                # second handle attached to it (what parallel_add's workers do) sees it too
+                V = SK.make(kind, *args)
+                V.attach_existing_shm(L.shm.name)
+                gv = observe(V, kind, uni)
+                del V
+                stats["loads"] += 1
+                if gv != ref:
+                    fail(f"{lname} load(shared_memory=True): a handle attached to the loaded "
+                         f"sketch's block does not see the saved state "
+                         f"({'tables/bookkeeping' if gv[0] != ref[0] else 'answers'} differ)",
+                         {"loader": lname, "shared": shared, "what": "attach"})
             # merge with the original
             restore(X, cap, SKIP)
             a = copy.deepcopy(X)
